@@ -127,6 +127,11 @@ def run(ctx):
     ovg = Gram(["a"], [("S", [[t("a"), rr("C")], [t("a")]]),
                        ("C", [[t("a"), rr("S"), t("a")], [rr("S"), rr("C"), t("a"), rr("C")]])])
     corpus.insert(1, ("overflow", ovg, "all255", {"a": 255}, [["a", "a", "a"]]))
+    # one success node standing for 4^12 repair sequences: expanding the merged alternatives must stay inside the
+    # recovery budget too (the parse returns promptly although the repair space is huge) — ordinary budget
+    wide = Gram(["a", "b", "c", "d", "x"], [("S", [[rr("A")] * 12 + [t("x")]]),
+                                            ("A", [[t("a")], [t("b")], [t("c")], [t("d")]])])
+    cases.insert(0, ("wideinsert", wide, "unit", {}, [[], ["x"], ["a", "x"]]))
     # (a larger budget for the corpus: the overflow needs ~260 search levels before the budget ends)
     results = repair.run_cases(corpus, budget_ms=8000) + repair.run_cases(cases)
     for r in results:
